@@ -422,7 +422,9 @@ def near_miss(rng, base, op=None):
   if op == 'junk-after-value':
     return b + ' ' + rng.choice(['1', 'x', '[2]', 'None', '@', '%', '=', '= 2', ')', '.', '...', '-', '"s" 1', '1.5', '@x', '%y', '$', '?', '!']), op
   if op == 'minus-nonnumber':
-    return '-' + rng.choice(['', ' ']) + rng.choice(["'a'", 'None', '[1]', '(1, 2)', '{}', "b'x'", 'x', '@%s' % rng.choice(['REF', 'REF()']), '%MACRO', '']), op
+    core = '-' + rng.choice(['', ' ']) + rng.choice(["'a'", 'None', '[1]', '(1, 2)', '{}', "b'x'", 'x', '@%s' % rng.choice(['REF', 'REF()']), '%MACRO', '',
+                                                     'True', 'False', 'True', '(True)', "''", '1j if 0 else 2'])
+    return rng.choice(['%s', '%s', '[1, %s]', "{'k': %s}", '(%s,)']) % core, op
   if op == 'double-minus':
     return rng.choice(['--1', '- -1', '-+1', '---2.5', '- - 3j']), op
   if op == 'bytes-str-mix':
